@@ -285,6 +285,8 @@ fn write_fg_span(buffer: &mut String, style: &anstyle::Style, fragment: &str) {
     let hidden = effects.contains(anstyle::Effects::HIDDEN);
 
     let fragment = html_escape::encode_text(fragment);
+    // XML parsers normalize a literal carriage return to a line feed
+    let fragment = fragment.replace('\r', "&#13;");
     let mut classes = Vec::new();
     if let Some(class) = fg_color.as_deref() {
         classes.push(class);
